@@ -2,7 +2,7 @@
    from the case's arguments, the canonical observation the Rust harness
    printed for the implementation. Everything is numbers: arguments are lists
    of integers, observations are lists of integers. Definitions only. *)
-Require Import BV.Model.Base BV.Model.SrcB BV.Model.Length BV.Model.Tag BV.Model.Twos BV.Model.Int BV.Model.BitStr BV.Model.Oid.
+Require Import BV.Model.Base BV.Model.SrcB BV.Model.Length BV.Model.Tag BV.Model.Twos BV.Model.Int BV.Model.BitStr BV.Model.Oid BV.Model.Content BV.Model.Prog.
 Local Open Scope Z_scope.
 
 Definition zs_to_ns (l : list Z) : list N := map Z.to_N l.
@@ -150,8 +150,14 @@ Definition s_c20_display (args : list (list Z)) : list Z :=
   enc_res (fun l => Z.of_N (len l) :: flat_map enc_arc l ++ Z.of_N (len l) :: flat_map enc_arc l)
           (oid_display (argb 0 args)).
 
+(* ---- programs (C02, C03, C09, C10, C11) ---- *)
+Definition s_prog (args : list (list Z)) : list Z :=
+  run_program (argm 0 args) (arg 1 args) (argb 2 args).
+
 Definition run_stream (sid : N) (args : list (list Z)) : list Z :=
   match sid with
+  | 201%N | 301%N | 901%N | 1001%N | 1101%N => s_prog args
+  | 1002%N => [1]  (* implementation-only measurement: deep nesting on a small stack *)
   | 1201%N => s_c12_new args
   | 1202%N => s_c12_read args
   | 1203%N => s_c12_takeif args
